@@ -937,7 +937,7 @@ def fix_tags(t):
     for idx, f in enumerate(t["f"]):
         if f.get("keyless"):
             f["key"] = "F%d" % idx
-        if f.get("style") or f.get("keyless"):
+        if (f.get("style") or f.get("keyless")) and not f.get("rawfixed"):
             style = f.get("style") or "plain"
             if style in EMPTY_SET_STYLES and f["o"] is None:
                 f["o"] = O()
@@ -1090,6 +1090,232 @@ def canon_doc(d):
     if d is None or "o" not in d:
         return d
     return {"o": [{"k": canon(kv["k"]), "v": kv["v"]} for kv in d["o"]]}
+
+
+def collect_claims(t, acc):
+    """(tag text, key it stands for — empty when the tag leaves it out —, options it stands for) of every
+    field whose tag text the generator wrote itself"""
+    k = t["k"]
+    if k in ("ptr", "slice", "map"):
+        return collect_claims(t["e"], acc)
+    if k != "struct":
+        return
+    for f in t["f"]:
+        if f.get("raw") is not None and not f.get("anon"):
+            acc.append((f["raw"], "" if f.get("keyless") else f["key"], f["o"]))
+        collect_claims(f["t"], acc)
+
+
+WS = " \t\n\v\f\r"
+
+
+def parse_segments_py(val):
+    segs, buf, escaped, grouped = [], "", False, False
+    for chx in val:
+        if escaped:
+            buf += chx
+            escaped = False
+        elif chx == ",":
+            if grouped:
+                buf += chx
+            else:
+                segs.append(buf.strip(WS))
+                buf = ""
+        elif chx == "\\":
+            if grouped:
+                buf += chx
+            else:
+                escaped = True
+        elif chx in "([":
+            buf += chx
+            grouped = True
+        elif chx in ")]":
+            buf += chx
+            grouped = False
+        else:
+            buf += chx
+    last = buf.strip(WS)
+    if last:
+        segs.append(last)
+    return segs
+
+
+BAD_RANGE = {"li": True, "l": None, "r": None, "ri": True}
+
+
+def parse_tag_py(raw):
+    """go-zero's doParseKeyAndOptions, mirrored: (key, options) with a refused tag shown as the ill-formed
+    range; None when the tag is outside the modelled fragment.  Checked against TagModel.v on every case."""
+    import re
+    segs = parse_segments_py(raw.strip(WS))
+    bad = lambda key: (key, O(range=dict(BAD_RANGE)))
+    if not segs:
+        return bad("")
+    key, opts = segs[0].strip(WS), segs[1:]
+    if not opts:
+        return key, None
+    o = O()
+
+    def prop(opt):
+        parts = opt.split("=")
+        return parts[1].strip(WS) if len(parts) == 2 else None
+
+    num = re.compile(r"[+-]?(\d+\.?\d*|\.\d+)([eE][+-]?\d+)?$")
+    for opt in opts:
+        opt = opt.strip(WS)
+        if opt == "inherit":
+            return None
+        if opt.startswith("env") and not opt.startswith("envx_never"):
+            if opt != "string" and not opt.startswith("optional") and not opt.startswith("options") and not opt.startswith("default"):
+                return None if len(opt.split("=")) == 2 else bad(key)
+        if opt == "string":
+            o["str"] = True
+        elif opt.startswith("optional"):
+            parts = opt.split("=")
+            if len(parts) > 2:
+                return bad(key)
+            o["opt"] = True
+            if len(parts) == 2:
+                d = parts[1]
+                o["dep"], o["neg"] = (None, False) if d == "" else ((d[1:], True) if d[0] == "!" else (d, False))
+        elif opt.startswith("options"):
+            v = prop(opt)
+            if v is None:
+                return bad(key)
+            if v == "":
+                o["options"] = None
+            elif v[0] == "[":
+                o["options"] = parse_segments_py(v.lstrip("([").rstrip(")]")) or None
+            else:
+                o["options"] = v.split("|")
+        elif opt.startswith("default"):
+            v = prop(opt)
+            if v is None:
+                return bad(key)
+            o["def"] = v or None
+        elif opt.startswith("range"):
+            v = prop(opt)
+            if v is None or len(v) < 2 or v[0] not in "[(" or v[-1] not in "])":
+                return bad(key)
+            fs = v[1:-1].split(":")
+            if len(fs) != 2 or (fs[0] == "" and fs[1] == ""):
+                return bad(key)
+            bs = []
+            for x in fs:
+                if x == "":
+                    bs.append(None)
+                elif num.match(x):
+                    try:
+                        if abs(Decimal(x)) >= Decimal("1.7976931348623158e308"):
+                            return bad(key)
+                    except Exception:
+                        return bad(key)
+                    bs.append(x.lstrip("+") if not x.lstrip("+-").startswith(".") and not x.rstrip().endswith(".") else format(Decimal(x), "f"))
+                elif x.lower().lstrip("+-") in ("nan", "inf", "infinity"):
+                    return None
+                else:
+                    return bad(key)
+            l, r = bs
+            if l is not None and r is not None:
+                if Decimal(l) > Decimal(r) or (Decimal(l) == Decimal(r) and not (v[0] == "[" and v[-1] == "]")):
+                    return bad(key)
+            o["range"] = {"li": v[0] == "[", "l": l, "r": r, "ri": v[-1] == "]"}
+    return key, o
+
+
+TAG_LEXEMES = {
+    "optional": ["optional", "optional=b", "optional=!b", "optional=", "optional=!", "optionalx", "optional=b=c", " optional ",
+                 "optional=!!b", "optional= b"],
+    "options": ["options=x|y", "options=[x,y]", "options=[ x , y ]", "options=x", "options=", "options=x||y", "options=[x\\,y,z]",
+                "options=x|y|", "options=|", "options=[x|y,z]", "options=(x,y)", "optionsx=x|y", "options=x=y", "options=[[x],y]",
+                "options= x|y ", "options=x |y", "options=1|2|3", "options=[1,2]", "options=[]", "options=[,]"],
+    "default": ["default=1", "default=", "default= 2 ", "default=x=y", "default=1,default=2", "defaults=3", "default=zz", "default=9",
+                "default=-1", "default=x\\,y", "default=1.5", "default=300", "default", "default=[1,2]"],
+    "range": ["range=%s%s:%s%s" % (a, l, r, b) for a in "[(" for b in "])"
+              for l, r in (("1", "5"), ("", "5"), ("1", ""), ("", ""), ("5", "5"), ("5", "1"), ("1e0", "5.0"), ("+1", "5"), ("-0", "0"),
+                           ("1", "1e400"), ("0x1", "5"), (".5", "5."), ("1 ", "5"), ("-9223372036854775808", "9223372036854775807"),
+                           ("0", "18446744073709551615"), ("1", "5e0"), ("a", "5"), ("1", "b"), ("0.1", "0.3"), ("-1e-7", "1e-7"))] +
+             ["range=", "range", "range=1:5", "range=[1:5", "range=1:5]", "range=[1:2:3]", "range=[1]", "range=[", "range=[1:5]=",
+              "range= [1:5] ", "rangex=[1:5]", "range=[1:5],range=[2:3]", "range=[ 1:5]", "range=[1: 5]"],
+    "string": ["string", "string ", "String", "stringx"],
+    "other": ["omitempty", "required", "", "-", "a=b"],
+}
+
+
+def near_tie_value(o, v):
+    """the supplied number and a bound are different decimals with one float64 (outside the exact fragment)"""
+    if not o or not o["range"]:
+        return False
+    lits = []
+
+    def walk(x):
+        if "n" in x or "s" in x:
+            lits.append(x.get("n", x.get("s")))
+        elif "a" in x:
+            for e in x["a"]:
+                walk(e)
+        elif "g" in x:
+            lits.append(x["g"][1])
+    walk(v)
+    for lit in lits:
+        try:
+            d = Decimal(lit.strip())
+        except Exception:
+            continue
+        if not d.is_finite():
+            continue
+        for b in (o["range"]["l"], o["range"]["r"]):
+            if b is not None and Decimal(b) != d and float(b) == float(d):
+                return True
+    return False
+
+
+def tag_lexemes(rng, n):
+    """the lexemes of the tag grammar, enumerated (every one alone, then sampled combinations in random
+    order), each on an int and a string field, with documents derived from what the text means"""
+    g = Gen(rng, "quick")
+    cases = []
+    singles = [(cls, lx) for cls, lxs in TAG_LEXEMES.items() for lx in lxs]
+    combos = [[lx] for _, lx in singles]
+    classes = list(TAG_LEXEMES)
+    while len(combos) < len(singles) + n:
+        k = rng.choice([2, 2, 3, 4])
+        combos.append([rng.choice(TAG_LEXEMES[c]) for c in rng.sample(classes, k)])
+    modes = ["json", "form", "key", "header", "path", "httpx-json", "httpx-form", "jsonmap"]
+    for ci, lxs in enumerate(combos):
+        for keytxt in (("a",) if ci % 7 else ("a", " a ", "", "a b")):
+            raw = ",".join([keytxt] + lxs)
+            parsed = parse_tag_py(raw)
+            if parsed is None:
+                continue
+            key, o = parsed
+            mode = modes[ci % len(modes)]
+            if " " in key and mode in ("header", "httpx-header"):
+                mode = "json"
+            for kind in (("int", "string") if ci % 3 == 0 else (("int",) if ci % 3 == 1 else ("string",))):
+                fa = F(key or "F0", P(kind), copy.deepcopy(o))
+                fa["raw"], fa["rawfixed"] = raw, True
+                if key == "":
+                    fa["keyless"] = True
+                fb = F("b", P("int"), O(opt=True))
+                for intent in ("valid", None, "range", "option"):
+                    if intent == "range" and not (o and o["range"] and o["range"] != BAD_RANGE and kind == "int"):
+                        continue
+                    if intent == "option" and not (o and o["options"]):
+                        continue
+                    pairs = []
+                    if intent is not None:
+                        try:
+                            pairs.append((fa["key"], g.field_value(fa, mode, intent)))
+                        except Exception:
+                            continue
+                    if pairs and near_tie_value(o, pairs[0][1]):
+                        continue
+                    if o and o["dep"] == "b" and rng.random() < 0.6:
+                        pairs.append(("b", scalar_for(mode, "1")))
+                    cases.append(finish({"mode": mode, "type": St(copy.deepcopy(fa), copy.deepcopy(fb)), "doc": dobj(pairs),
+                                         "intent": "tag-lexemes"}))
+    return cases
 
 
 def passes_of(c, obs):
@@ -2722,6 +2948,7 @@ class C08(Property):
             cases += systematic(rng)
             cases += dotted(rng)
             cases += tagsyntax(rng)
+            cases += tag_lexemes(rng, 150 if not big else 2500)
             cases += zeros(rng)
             cases += slice_defaults(rng)
             cases += depchains(rng)
@@ -2806,6 +3033,9 @@ class C08(Property):
             doc = "None" if p["doc"] is None else "(Some %s)" % cdoc(p["doc"])
             val = "None" if p["val"] is None or obs["verdict"] != "ok" else "(Some %s)" % cval(p["val"])
             ps.append("mkOPass (mkPass %s %s %s) %s" % (p["kc"], cfields(p["type"]["f"]), doc, val))
+        claims = []
+        if case["mode"] != "parse":
+            collect_claims(view_type(case["type"], tag_of(case["mode"])), claims)
         verdict = {"ok": "VOk", "error": "VErr", "panic": "VPanic"}[obs["verdict"]]
         if obs.get("alias"):
             # two positions of the target share one pointer: not a value of the type's value space at all
@@ -2813,7 +3043,8 @@ class C08(Property):
             verdict = "VPanic"
         vd = case.get("validator") or case.get("self_validator")
         validator = "None" if vd is None else "(Some %s)" % cbool(vd == "accept")
-        return "mkOCall %s %s %s %s" % (clist(ps), validator, cbool(bool(obs.get("called"))), verdict)
+        tags = clist(["(%s, %s, %s)" % (cstr(raw), cstr(key), copts(o)) for raw, key, o in claims])
+        return "mkOCall %s %s %s %s %s" % (clist(ps), validator, cbool(bool(obs.get("called"))), verdict, tags)
 
     # ---- evidence -------------------------------------------------------------------
     @staticmethod
